@@ -20,7 +20,7 @@ import (
 const c19Rule = "case = file-backed segment (small / block families, built or merged; >1024-document family with one retained doc-value reader crossing chunk boundaries) + a sequence of 3..10 read calls (dictionary enumeration, postings walk, stored visit, doc-value visit with one retained reader, " +
 	"DocsMatchingTerms, stats, persist, merge as input); inside each case EVERY index k of the storage read from which all reads fail is enumerated, k = 0..(reads of the fault-free run; beyond 300 reads: first 120, last 20, 40 after the start of every call, and a stride), both as a persistent failure and as a transient window of 1..3 failing reads, each on a freshly loaded segment " +
 	"(walks through every 'which caches are warm' state); oracle = every call returns (watchdog + goroutine dump: blocked in Mutex.Lock under an ice frame = violation, anything else = inconclusive), a call that saw a failing " +
-	"read yields an error, an empty result or the fault-free result (never a different non-empty result), a call before the first failure is correct, a later call that does no storage read of its own is correct or reports an error / empty result (never a different non-empty result), no panic - also when the caller keeps calling Next on an iterator that returned an error; non-trivial = the fault hits after >=1 successful read and >=1 call follows " +
+	"read yields an error or an empty result, a call before the first failure is correct, a later call that does no storage read of its own is correct or reports an error / empty result (never a different non-empty result), no panic - also when the caller keeps calling Next on an iterator that returned an error; non-trivial = the fault hits after >=1 successful read and >=1 call follows " +
 	"the first failing call; distinct = hash of case text + call sequence"
 
 type rop struct {
@@ -671,6 +671,13 @@ func c19Prop(st *CaseStats, fam int) func(t *rapid.T) {
 					if err == nil && res != "" && res != good[i] && !(o.kind == 3 && dvFieldwiseSubset(res, good[i])) {
 						t.Fatalf("%s:\n  storage fails from read #%d on: call #%d %s saw a failing read but returned no error and a wrong non-empty result %q (fault-free: %q)", desc, k, i, o, res, good[i])
 					}
+					if err == nil && res != "" && res == good[i] && o.kind != 8 {
+						// the property's first clause, literally: a call during which the storage returned an error
+						// reports an error or an empty result - not its complete result as if nothing had happened
+						// (never observed on the repaired tree in several million enumerated faults before this
+						// became a violation; kind 8, the cancelled merge, legitimately stops reading at any time)
+						t.Fatalf("%s:\n  storage fails from read #%d on (window %d): call #%d %s saw a failing storage read but reported neither an error nor an empty result: %q", desc, k, fm.window, i, o, res)
+					}
 				} else if firstFail < 0 {
 					// the storage has not failed yet: plain correctness
 					if err != nil {
@@ -699,6 +706,7 @@ func c19Prop(st *CaseStats, fam int) func(t *rapid.T) {
 		st.AddInner(inner)
 		st.Label("fault-points", len(modes))
 		st.Label("later-call-empty-instead-of-cached-result(allowed)", staleEmpty)
+
 		st.Record(desc, nt, c.LabelList()...)
 	}
 }
